@@ -175,7 +175,13 @@ def h5_digest(path, skip=('metadata',)):
                     t = json.loads(v.decode('utf-8'))
                     t.pop('metadata', None)
                     v = json.dumps(t, sort_keys=True).encode('utf-8')
-                if isinstance(v, np.ndarray):
+                if isinstance(v, np.ndarray) and v.dtype == object:
+                    # variable-length strings: tobytes() would be pointers
+                    flat = [x.decode('utf-8') if isinstance(x, bytes)
+                            else str(x) for x in v.ravel().tolist()]
+                    out[name] = ('object', v.shape,
+                                 json.dumps(flat).encode('utf-8'))
+                elif isinstance(v, np.ndarray):
                     out[name] = (str(v.dtype), v.shape, v.tobytes())
                 else:
                     out[name] = ('scalar', None,
